@@ -52,6 +52,8 @@
 (*   "list"  ListTensor, "grad" Grad, "transposed" Transposed              *)
 (*   "conj"  Conj (ufl writes inner(f, v) as conj(inner(v, f)))            *)
 (*   "ident" n = dimension (Identity; made by apply_derivatives)           *)
+(*   "const" a scalar Constant on the mesh (offered through Coords)        *)
+(*   "variable" Variable (ufl.variable(e): e with a label)                 *)
 (* FORM OPERATIONS on a finished scalar integrand t (roots; nothing is     *)
 (* built on top of them):                                                  *)
 (*   "gderiv" mi = <<k, number>>: derivative(t*dx, tuple DerivTuples[k] of *)
@@ -72,7 +74,7 @@ CONSTANTS GDim,        \* geometric dimension of the (affine simplex) mesh
           Elems,       \* the element pool: sequence of element records
           CoefElems,   \* indices into Elems offered as Coefficient terminals
           ArgSlots,    \* pairs <<index into Elems, argument number>> offered as Arguments
-          Coords,      \* subset of {"x", "X"}
+          Coords,      \* subset of {"x", "X", "const"}
           Lits,        \* integer literals offered (>= 1)
           Pows,        \* exponents offered (>= 0)
           Ops,         \* enabled constructors
@@ -197,7 +199,7 @@ IndepComp(e, c) == IF e.kind = "symmetric"
 (* TERMS *)
 
 N(op, n, mi, args) == [op |-> op, n |-> n, mi |-> mi, args |-> args]
-Terminals == {"coef", "arg", "x", "X", "lit", "zero", "ident"}
+Terminals == {"coef", "arg", "x", "X", "lit", "zero", "ident", "const"}
 FormOps == {"gderiv", "cderiv"}
 IsName(k) == k >= 10
 IdxDom == 10..17
@@ -216,9 +218,9 @@ Shape(t) ==
     [] t.op \in FormOps -> <<>>
     [] t.op = "x" -> <<GDim>>
     [] t.op = "X" -> <<TDim>>
-    [] t.op = "lit" -> <<>>
+    [] t.op \in {"lit", "const"} -> <<>>
     [] t.op = "zero" -> t.mi
-    [] t.op \in {"sum", "isum", "conj"} -> Shape(a[1])
+    [] t.op \in {"sum", "isum", "conj", "variable"} -> Shape(a[1])
     [] t.op \in {"prod", "pow", "indexed", "inner"} -> <<>>
     [] t.op = "ctensor" -> LET F == Free(a[1]) IN [k \in DOMAIN t.mi |-> DimOf(F, t.mi[k])]
     [] t.op = "list" -> <<Len(a)>> \o Shape(a[1])
@@ -230,7 +232,7 @@ Shape(t) ==
 Free(t) ==
   LET a == t.args IN
   CASE t.op \in Terminals \cup FormOps -> {}
-    [] t.op \in {"sum", "pow", "list", "grad", "transposed", "conj"} -> Free(a[1])
+    [] t.op \in {"sum", "pow", "list", "grad", "transposed", "conj", "variable"} -> Free(a[1])
     [] t.op \in {"prod", "inner", "dot", "outer"} -> Free(a[1]) \cup Free(a[2])
     [] t.op = "indexed" -> LET sh == Shape(a[1]) IN
          Free(a[1]) \cup {<<t.mi[k], sh[k]>> : k \in {j \in DOMAIN t.mi : IsName(t.mi[j])}}
@@ -244,7 +246,7 @@ Depth(t) == IF t.args = <<>> THEN 0
 ArgNums(t) == IF t.op = "arg" THEN {t.mi[1]}
               ELSE (IF t.op \in FormOps THEN {t.mi[2]} ELSE {}) \cup UNION {ArgNums(t.args[k]) : k \in DOMAIN t.args}
 HasCoef(t, n) == (t.op = "coef" /\ t.n = n) \/ \E k \in DOMAIN t.args : HasCoef(t.args[k], n)
-HasDomain(t) == t.op \in {"coef", "arg", "x", "X"} \cup FormOps \/ \E k \in DOMAIN t.args : HasDomain(t.args[k])
+HasDomain(t) == t.op \in {"coef", "arg", "x", "X", "const"} \cup FormOps \/ \E k \in DOMAIN t.args : HasDomain(t.args[k])
 HasCoord(t) == t.op \in {"x", "X"} \/ \E k \in DOMAIN t.args : HasCoord(t.args[k])
 Rank(t) == Len(Shape(t))
 
@@ -275,7 +277,7 @@ TD(t, c, env) ==
   LET a == t.args IN
   CASE t.op \in {"coef", "arg"} -> CompDeg(ElemAt(t.n), Flat(c, PhysShape(ElemAt(t.n))))
     [] t.op \in {"x", "X"} -> 1          \* affine cell: x is affine in X and conversely
-    [] t.op = "lit" -> 0
+    [] t.op \in {"lit", "const"} -> 0    \* a Constant is a number (nonzero for generic data)
     [] t.op = "zero" -> ZERO
     [] t.op = "ident" -> IF c[1] = c[2] THEN 0 ELSE ZERO
     \* the integrand of derivative(t*dx, tuple of coefficients): the Gateaux derivative of t
@@ -301,7 +303,7 @@ TD(t, c, env) ==
     [] t.op = "outer" -> LET ra == Rank(a[1]) IN
                          DMul(TD(a[1], SubSeq(c, 1, ra), env), TD(a[2], SubSeq(c, ra + 1, Len(c)), env))
     [] t.op = "transposed" -> TD(a[1], Rev(c), env)
-    [] t.op = "conj" -> TD(a[1], c, env)          \* real polynomials
+    [] t.op \in {"conj", "variable"} -> TD(a[1], c, env)          \* real polynomials; a label changes nothing
 
 \* Degree of the Gateaux derivative of component c of t w.r.t. the coefficients on the elements W
 \* (a tuple) in a generic direction: the increment of a coefficient is a generic member of the same
@@ -331,7 +333,7 @@ DG(t, c, env, W) ==
     [] t.op = "outer" -> LET ra == Rank(a[1])  c1 == SubSeq(c, 1, ra)  c2 == SubSeq(c, ra + 1, Len(c)) IN
                          DProd2(TD(a[1], c1, env), DG(a[1], c1, env, W), TD(a[2], c2, env), DG(a[2], c2, env, W))
     [] t.op = "transposed" -> DG(a[1], Rev(c), env, W)
-    [] t.op = "conj" -> DG(a[1], c, env, W)
+    [] t.op \in {"conj", "variable"} -> DG(a[1], c, env, W)
 
 \* Degree of the MATERIAL derivative of component c of t under a deformation of the mesh in the
 \* direction V (Argument on Elems[n], degree kd) -- an UPPER BOUND (exact cancellations occur, e.g.
@@ -367,7 +369,7 @@ DS(t, c, env, n) ==
     [] t.op = "outer" -> LET ra == Rank(a[1])  c1 == SubSeq(c, 1, ra)  c2 == SubSeq(c, ra + 1, Len(c)) IN
                          DProd2(TD(a[1], c1, env), DS(a[1], c1, env, n), TD(a[2], c2, env), DS(a[2], c2, env, n))
     [] t.op = "transposed" -> DS(a[1], Rev(c), env, n)
-    [] t.op = "conj" -> DS(a[1], c, env, n)
+    [] t.op \in {"conj", "variable"} -> DS(a[1], c, env, n)
 
 TrueDeg(t) == Max2(0, SetMax({TD(t, c, env) : c \in Comps(Shape(t)), env \in EnvsOf(Free(t))}))
 
@@ -424,6 +426,7 @@ TermPoly(t, c) ==
     [] t.op = "x" -> PVar(c[1])
     [] t.op = "X" -> PFull(1, c[1])
     [] t.op = "lit" -> PConst(t.n)
+    [] t.op = "const" -> PConst(3)
     [] t.op = "zero" -> PZero
     [] t.op = "ident" -> IF c[1] = c[2] THEN PConst(1) ELSE PZero
 
@@ -450,7 +453,7 @@ PV(t, c, env) ==
     [] t.op = "outer" -> LET ra == Rank(a[1]) IN
                          PMul(PV(a[1], SubSeq(c, 1, ra), env), PV(a[2], SubSeq(c, ra + 1, Len(c)), env))
     [] t.op = "transposed" -> PV(a[1], Rev(c), env)
-    [] t.op = "conj" -> PV(a[1], c, env)
+    [] t.op \in {"conj", "variable"} -> PV(a[1], c, env)
 
 PolyAll(t) == {PV(t, c, env) : c \in Comps(Shape(t)), env \in EnvsOf(Free(t))}
 
@@ -478,6 +481,8 @@ H_component_tensor(A) == A
 H_index_sum(A) == A
 H_transposed(A) == A
 H_conj(a) == a
+H_constant == 0                           \* constant(v)
+H_variable(e) == e                        \* variable(v, e, label): the label has no degree (None)
 H_list_tensor(s) == MaxDegrees(s)
 H_expr_list(s) == MaxDegrees(s)
 H_expr_mapping(s) == MaxDegrees(s)
@@ -519,6 +524,8 @@ EstR(t, rule) ==
   CASE t.op = "coef" -> H_coefficient(ElemAt(t.n))
     [] t.op = "arg" -> H_argument(ElemAt(t.n))
     [] t.op = "ident" -> H_constant_value
+    [] t.op = "const" -> H_constant
+    [] t.op = "variable" -> H_variable(EstR(a[1], rule))
     [] t.op = "gderiv" -> NotHandled
     [] t.op = "cderiv" -> H_coordinate_derivative(EstR(a[1], rule), H_expr_list(<<H_spatial_coordinate>>),
                                                   H_expr_list(<<H_argument(ElemAt(t.mi[1]))>>), H_expr_mapping(<<>>))
@@ -568,7 +575,7 @@ PushCoef == CanPush /\ \E n \in CoefElems :
 PushArg == CanPush /\ \E s \in ArgSlots :
               Push(Entry(N("arg", s[1], <<s[2]>>, <<>>), PhysShape(Elems[s[1]]), {}, 0, {s[2]}, TRUE))
 PushCoord == CanPush /\ \E w \in Coords :
-              Push(Entry(N(w, 0, <<>>, <<>>), IF w = "x" THEN <<GDim>> ELSE <<TDim>>, {}, 0, {}, TRUE))
+              Push(Entry(N(w, 0, <<>>, <<>>), IF w = "x" THEN <<GDim>> ELSE IF w = "X" THEN <<TDim>> ELSE <<>>, {}, 0, {}, TRUE))
 PushLit == CanPush /\ \E v \in Lits : Push(Entry(N("lit", v, <<>>, <<>>), <<>>, {}, 0, {}, FALSE))
 
 \* A[ii]: every position a fixed component or a fresh index name (no repeated name)
@@ -607,6 +614,11 @@ DoGrad == /\ Unary("grad") /\ Top.dm
           /\ (Len(Top.sh) <= 1 \/ Top.t.op \in {"coef", "arg"})
           /\ LET e == Top IN
              ReplaceTop(Entry(N("grad", 0, <<>>, <<e.t>>), e.sh \o <<GDim>>, e.fr, e.dp + 1, e.an, e.dm))
+
+\* ufl.variable(e): an expression without free indices, labelled
+DoVariable == /\ Unary("variable") /\ Top.fr = {}
+              /\ LET e == Top IN
+                 ReplaceTop(Entry(N("variable", 0, <<>>, <<e.t>>), e.sh, e.fr, e.dp + 1, e.an, e.dm))
 
 DoTransposed == /\ Unary("transposed") /\ Len(Top.sh) = 2 /\ Top.fr = {}
                 /\ LET e == Top IN
@@ -668,7 +680,7 @@ Init == stack \in {IF s = <<>> THEN <<>> ELSE <<EntryOf(s[1])>> : s \in Seeds}
 Next == \/ PushCoef \/ PushArg \/ PushCoord \/ PushLit
         \/ DoIndexed \/ DoCTensor \/ DoPow \/ DoGrad \/ DoTransposed
         \/ DoProd \/ DoSum \/ DoList \/ DoInner \/ DoDot \/ DoOuter
-        \/ DoGateaux \/ DoShape
+        \/ DoGateaux \/ DoShape \/ DoVariable
 Spec == Init /\ [][Next]_vars
 
 -----------------------------------------------------------------------------
